@@ -49,7 +49,7 @@ inline std::string to_text(const Case& c) {
     { size_t n = c.sched.aux.size(); while (n > 0 && c.sched.aux[n - 1] == 0) --n;
       for (size_t i = 0; i < n; ++i) o << ' ' << (int)c.sched.aux[i]; }
     o << "\nweak " << (c.sched.weak ? 1 : 0) << "\n";
-    o << "fault " << c.sched.fault_k << ' ' << c.sched.fault_mask << "\n";
+    o << "fault " << c.sched.fault_k << ' ' << c.sched.fault_mask; if (c.sched.fault_std) o << " 1"; o << "\n";
     o << "budget " << c.sched.step_budget << "\n";
     if (c.sched.post_unlock) o << "postunlock 1\n";
     o << "end\n";
@@ -76,7 +76,7 @@ inline bool from_text(const std::string& text, Case& c) {
         else if (kw == "bytes") { int v; while (ls >> v) c.sched.bytes.push_back((uint8_t)v); }
         else if (kw == "aux") { int v; while (ls >> v) c.sched.aux.push_back((uint8_t)v); }
         else if (kw == "weak") { int v = 0; ls >> v; c.sched.weak = v != 0; }
-        else if (kw == "fault") { ls >> c.sched.fault_k >> c.sched.fault_mask; }
+        else if (kw == "fault") { int st = 0; ls >> c.sched.fault_k >> c.sched.fault_mask; if (ls >> st) c.sched.fault_std = st != 0; }
         else if (kw == "budget") { ls >> c.sched.step_budget; }
         else if (kw == "postunlock") { int v = 0; ls >> v; c.sched.post_unlock = v != 0; }
         else if (kw == "end") { ended = true; break; }
@@ -133,9 +133,10 @@ inline rc::Gen<std::vector<uint8_t>> sparse_bytes(int len, int density, int maxv
 inline rc::Gen<vrt::SchedSpec> gen_sched(const GenSpec& g) {
     using namespace rc;
     if (g.sequential) {
-        return gen::map(gen::tuple(sparse_bytes(g.aux_len, g.aux_density, 255), rng(0, g.fault_max + 1)),
+        return gen::map(gen::tuple(sparse_bytes(g.aux_len, g.aux_density, 255), rng(0, 2 * g.fault_max + 1)),
                         [g](std::tuple<std::vector<uint8_t>, int> t) {
-                            vrt::SchedSpec s; s.mode = 0; s.aux = std::get<0>(t); s.fault_k = std::get<1>(t);   // (post_unlock is meaningless with one fiber)
+                            vrt::SchedSpec s; s.mode = 0; s.aux = std::get<0>(t); s.fault_k = std::get<1>(t);
+                            if (s.fault_k > g.fault_max) { s.fault_k -= g.fault_max; s.fault_std = true; }   // (post_unlock is meaningless with one fiber)
                             s.fault_mask = g.fault_mask; s.step_budget = g.step_budget; return s;
                         });
     }
@@ -147,10 +148,11 @@ inline rc::Gen<vrt::SchedSpec> gen_sched(const GenSpec& g) {
         else if (flavour < 16) mode = 1;
         // (rr is reached through shrinking / thorough tier only: it is a single schedule per program)
         return gen::map(gen::tuple(sparse_bytes(g.sched_len, density, 7), sparse_bytes(g.aux_len, g.aux_density, 255),
-                                   rng(0, g.fault_max + 1), rng(0, g.allow_weak ? 2 : 1), rng(0, 3)),
+                                   rng(0, 2 * g.fault_max + 1), rng(0, g.allow_weak ? 2 : 1), rng(0, 3)),
                         [g, mode](std::tuple<std::vector<uint8_t>, std::vector<uint8_t>, int, int, int> t) {
                             vrt::SchedSpec s; s.mode = mode; s.bytes = std::get<0>(t); s.aux = std::get<1>(t);
                             s.fault_k = std::get<2>(t); s.fault_mask = g.fault_mask; s.weak = std::get<3>(t) != 0;
+                            if (s.fault_k > g.fault_max) { s.fault_k -= g.fault_max; s.fault_std = true; }
                             s.step_budget = g.step_budget; s.post_unlock = std::get<4>(t) == 2;      // a third of the cases
                             return s;
                         });
@@ -185,7 +187,8 @@ inline Case decode_bytes(const std::string& target, const GenSpec& g, const uint
     c.sched.mode = (flavour & 15) >= 14 ? 1 : 0;
     c.sched.weak = g.allow_weak && (flavour & 16);
     c.sched.post_unlock = (flavour & 96) == 96;
-    c.sched.fault_k = g.fault_max ? take_back() % (g.fault_max + 1) : 0;
+    c.sched.fault_k = g.fault_max ? take_back() % (2 * g.fault_max + 1) : 0;
+    if (c.sched.fault_k > g.fault_max) { c.sched.fault_k -= g.fault_max; c.sched.fault_std = true; }
     c.sched.fault_mask = g.fault_mask;
     c.sched.step_budget = g.step_budget;
     int nsched = g.sequential ? 0 : std::min<int>(g.sched_len, (int)(back / 3));
@@ -215,7 +218,7 @@ inline uint64_t program_hash(const Case& c) {
     auto mix = [&](uint64_t v) { h = (h ^ v) * 1099511628211ull; };
     for (int v : c.cfg) mix((uint64_t)v + 7);
     for (auto& f : c.fibers) { mix(0xfffe); for (auto& o : f) { mix((uint64_t)o.code); mix((uint64_t)o.a + 300); mix((uint64_t)o.b + 600); } }
-    mix(c.sched.weak); mix((uint64_t)c.sched.fault_k); if (c.sched.post_unlock) mix(0x9051);
+    mix(c.sched.weak); mix((uint64_t)c.sched.fault_k); if (c.sched.post_unlock) mix(0x9051); if (c.sched.fault_std) mix(0x57d);
     return h;
 }
 
